@@ -203,7 +203,8 @@ DECOR = {"C01": 0.25, "C03": 0.1, "C07": 0.1, "C19": 0.2}
 
 # edit kinds that only one property draws: appending a data input changes the number of cards (C03's and C07's
 # oracles align cards one to one), for C19 it is an edit like any other
-EXTRA_KINDS = {"C19": ["data_append", "data_append"]}
+EXTRA_KINDS = {"C19": ["data_append", "data_append", "tr_main_to_aux", "tr_main_to_aux", "tr_main_to_aux", "geometry_operator"],
+               "C03": ["tr_main_to_aux", "tr_main_to_aux"], "C07": ["tr_main_to_aux", "tr_main_to_aux"]}
 
 
 def make_case(prop, rng, gen_opts=None):
@@ -212,7 +213,8 @@ def make_case(prop, rng, gen_opts=None):
     # volumes of exactly zero, microscopic volumes next to repeat shortcuts and the 6.123e-17 of a 90 degree rotation
     # next to '0 2r' only for the unedited round trip: an EDIT inside such lists runs into the re-compressor (C08)
     opts = dict(lattice_arrays=True, multiply_surfaces=(prop == "C01"), joint_imp_cards=True,
-                edge_volumes=(prop == "C01"), tr_tiny=(prop == "C01"), tr_forms=True)
+                edge_volumes=(prop == "C01"), tr_tiny=(prop == "C01"), tr_forms=True,
+                tr_flag=True, mass_fraction_materials=True)
     opts.update(gen_opts or {})
     wild = rng.random() < WILD[prop]
     return rt.gen_case(rng, wild=wild, opts=opts, decorate_p=DECOR[prop])
